@@ -2,7 +2,7 @@
 import json, os
 from ..absint import Adt, Atom, Int, Abort
 from .. import load, l1, l2, mir
-from . import summaries
+from . import summaries, valeq
 from .derive_rules import fmt_items
 
 VERIF = os.path.abspath(os.path.join(os.path.dirname(__file__), '..', '..', '..'))
@@ -28,7 +28,9 @@ def run(ctx):
             ctx.violation('PAIR', t, 'only %s is implemented and the type is not in tables/one_sided_impls.json (a codec type lost its partner impl?)' % side, mir.loc((enc.get(t) or dec.get(t))['sp']))
     ctx.floor('PAIR', 'two-sided types', len(pairs), 70)
     ctx.rules_run.append('MIRROR: Decode interpreted over the abstract item stream of Encode: succeeds on every path, consumes exactly the stream, leaves are decoded as the type they were encoded as')
+    ctx.rules_run.append('MIRROR.value: the term the decoder returns, normalised by the reconstruction axioms of rules/valeq.py (constructor applied to the projections of x = x, field-for-field structs), is literally the encoded value')
     n = 0
+    nval = 0
     for t in pairs:
         ep = enc[t]['trait_ref'] + '::encode'
         dp = dec[t]['trait_ref'] + '::decode'
@@ -73,6 +75,19 @@ def run(ctx):
                     rest = l2.stream(o.st)[l2.cur(o.st):]
                     ctx.violation('MIRROR', key + '|consumption', 'decoding leaves %d item(s) of the encoding unread: %s' % (len(rest), fmt_items(rest)[:120]), where)
                     good = False
+                # MIRROR.value: the decoded term, normalised by the reconstruction axioms of valeq.py, is the encoded value
+                dv = repr(o.value.fields[0])
+                if dv.startswith(tuple('<' + u for u in valeq.UNDECIDED)):
+                    ctx.count('MIRROR.value.undecided')
+                else:
+                    nval += 1
+                    same, ab = valeq.equal_values(repr(eo.st.mem.get(('arg', 'self'))), dv, prog.adts)
+                    if same:
+                        ctx.ok('MIRROR.value', key)
+                    else:
+                        ctx.violation('MIRROR.value', key, 'decoding the encoding of x does not rebuild x: the encoder wrote %s for x = %s, the decoder returns %s (no reconstruction axiom explains this term: swapped or transformed components, or a new idiom to add to rules/valeq.py after review)'
+                                      % (fmt_items(eo.st.events)[:160], ab[0][:80], ab[1][:200]), where)
+                        good = False
                 for ev in o.st.events:
                     if ev[0] == 'DECODED' and ev[1] != ev[2] and ev[1] != '<%s as std::borrow::ToOwned>::Owned' % ev[2]:
                         ctx.violation('MIRROR', key + '|leaf', 'component written as %s is read back as %s' % (ev[2], ev[1]), where)
@@ -89,4 +104,5 @@ def run(ctx):
                 if t in ('std::result::Result<T, E>', 'std::ops::Bound<T>'):
                     ctx.sample({'type': t, 'case': key, 'stream': fmt_items(eo.st.events)})
     ctx.count('MIRROR.cases', n)
+    ctx.floor('MIRROR.value', 'decided (type, variant) cases', nval, 100 if prog.feature('std') else 60)
     return 'Pairing table checked; %d (type, variant) encodings were fed item by item to the matching decoder by abstract interpretation.' % n
